@@ -199,7 +199,7 @@ func init() {
 	// ------------------------------------------------------------ C02
 	registerSteered(steeredProfile{
 		prop: "C02", quick: 800, thorough: 12000,
-		rule: "steered programs that open collection snapshots, store snapshots, child snapshots and partially advanced iterators (up to 6 at once) at arbitrary points, then keep running batches, merger cycles, persister rounds, partial and full compactions, Collection.Close and Store.Close; after EVERY later step every open handle is re-read in full (iteration + Get of each universe key, memory faults trapped) against the model copy taken when it was opened; iterators are continued to their end and re-seeked at program end. distinct_nontrivial = distinct (handle kind | events outlived: compaction/unlink/collection close/store close | configuration class) triples for which a re-read happened.",
+		rule: "steered programs that open collection snapshots, store snapshots, child snapshots and partially advanced iterators (up to 6 at once) at arbitrary points, then keep running batches, merger cycles, persister rounds, partial and full compactions, Collection.Close and Store.Close; after EVERY later step every open handle is re-read in full (iteration + Get of each universe key, memory faults trapped) against the model copy taken when it was opened; iterators are continued to their end and re-seeked at program end. distinct_nontrivial = distinct (handle kind | events outlived: compaction/unlink/collection close/store close | configuration class) triples for which a re-read happened. The store-first close order is exercised with the persister parked at any store.* point (a round in flight under the closed store).",
 		oracles: eng.Oracles{Frozen: true, Content: true},
 		gen: func(r *eng.Rng, idx int, th bool) *eng.Program {
 			cfg := eng.GenConfig(r, pickBacking(r, "none", "store", "store", "store", "store", "custom"), false)
@@ -220,7 +220,7 @@ func init() {
 	// ------------------------------------------------------------ C04
 	registerSteered(steeredProfile{
 		prop: "C04", quick: 640, thorough: 9600,
-		rule: "steered store-backed programs with child collections, empty values and deletions; close+reopen at chosen points: caught-up (3 directed merger+persister iterations after the last batch, then Close), early (Close right where the program is, including with merger/persister parked), mid (Close called while the persister is parked inside Store.persist/compact at a store.* hook; gates open only after Close has signalled stop); the reopened tree's canonical hash is looked up in the table of prefix states: caught-up => exactly all batches, otherwise some prefix >= what the store had exposed. distinct_nontrivial = distinct (reopen kind, batches lost) pairs plus (config class|shape|park) triples.",
+		rule: "steered store-backed programs with child collections, empty values and deletions; close+reopen at chosen points: caught-up (3 directed merger+persister iterations after the last batch, then Close), early (Close right where the program is, including with merger/persister parked), mid (Close called while the persister is parked inside Store.persist/compact at a store.* hook; gates open only after Close has signalled stop), abort (Store.CloseEx(Abort) with the round parked the same way, then Collection.Close; ErrAborted / ErrClosed reports are then provoked); the reopened tree's canonical hash is looked up in the table of prefix states: caught-up => exactly all batches, otherwise some prefix >= what the store had exposed. distinct_nontrivial = distinct (reopen kind, batches lost) pairs plus (config class|shape|park) triples.",
 		oracles: eng.Oracles{Content: true, Reopen: true, Store: true},
 		gen: func(r *eng.Rng, idx int, th bool) *eng.Program {
 			cfg := eng.GenConfig(r, "store", false)
@@ -270,7 +270,7 @@ func init() {
 	// ------------------------------------------------------------ C08
 	registerSteered(steeredProfile{
 		prop: "C08", quick: 960, thorough: 19200,
-		rule: "steered programs with Set/Del/Merge under an order-sensitive, nil-revealing operator (fold = (existing==nil?\"∅\":existing)+\"|\"+operand; PartialMerge refuses), operands spread over batches, sections, persisted segments, partial/full compactions, a custom lower level, child collections and reopens; after every step Get and iterator values are compared with the model's left fold. distinct_nontrivial = distinct (config class|shape|park) triples at which merged keys were compared.",
+		rule: "steered programs with Set/Del/Merge under an order-sensitive, nil-revealing operator (fold = (existing==nil?\"∅\":existing)+\"|\"+operand; PartialMerge refuses), operands spread over batches, sections, persisted segments, partial/full compactions, a custom lower level, child collections and reopens; after every step Get and iterator values are compared with the model's left fold. distinct_nontrivial = distinct (config class|shape|park) triples at which merged keys were compared. Operands include one that folds to the empty (present) value; a quarter of the programs contain phases in which the operator refuses a poisoned operand (FullMerge returns false) over 1-3 merger cycles, sometimes with a persister round parked in mid-flight, and must fold it exactly once after relenting; a third of the programs with child collections nest them two deep, with a pattern that has a grandchild operand resolved against the stack handed to the persister.",
 		oracles: eng.Oracles{Content: true, Reopen: true},
 		gen: func(r *eng.Rng, idx int, th bool) *eng.Program {
 			cfg := eng.GenConfig(r, pickBacking(r, "none", "store", "store", "store", "custom"), true)
@@ -331,7 +331,7 @@ func init() {
 	// ------------------------------------------------------------ C13
 	registerSteered(steeredProfile{
 		prop: "C13", quick: 4800, thorough: 96000,
-		rule: "steered programs (Set/Del/Merge, top-level keys) against a map-backed application lower level that applies each `higher` snapshot by the documented protocol (iterate IncludeDeletions+SkipLowerLevel, resolve Merge with higher.Get); LowerLevelUpdate failure plans (single, bursts, alternating) fail before applying; after every step the lower level must equal the reference content of a non-decreasing prefix and the collection snapshot the full reference content; after draining the lower level must equal the full reference content. distinct_nontrivial = distinct prefix gaps accepted by the lower level plus (config class|shape|park) triples.",
+		rule: "steered programs (Set/Del/Merge, top-level keys) against a map-backed application lower level that applies each `higher` snapshot by the documented protocol (iterate IncludeDeletions+SkipLowerLevel, resolve Merge with higher.Get); LowerLevelUpdate failure plans (single, bursts, alternating) fail before applying; after every step the lower level must equal the reference content of a non-decreasing prefix and the collection snapshot the full reference content; after draining the lower level must equal the full reference content. distinct_nontrivial = distinct prefix gaps accepted by the lower level plus (config class|shape|park) triples. A quarter of the programs contain phases in which the merge operator refuses to merge over some merger cycles.",
 		oracles: eng.Oracles{Content: true, Lower: true},
 		gen: func(r *eng.Rng, idx int, th bool) *eng.Program {
 			merge := r.Chance(2, 3)
@@ -368,7 +368,7 @@ func init() {
 	// ------------------------------------------------------------ C15
 	registerSteered(steeredProfile{
 		prop: "C15", quick: 800, thorough: 12000,
-		rule: "steered store-backed programs with handles of every kind (collection snapshots, child snapshots, iterators, store snapshots) opened and closed at arbitrary points relative to persistence, partial/full compaction, idle cycles, Collection.Close and Store.Close; every handle is re-read after every step (faults trapped); after everything is closed and the process is quiescent (no moss goroutine runnable, no pending asynchronous unlink) /proc/self/fd and /proc/self/maps must not mention the (unique) store directory and the directory must hold exactly one data file. distinct_nontrivial = distinct (handle kind | events outlived | config class) triples re-read plus release checks by child/no-child.",
+		rule: "steered store-backed programs with handles of every kind (collection snapshots, child snapshots, iterators, store snapshots) opened and closed at arbitrary points relative to persistence, partial/full compaction, idle cycles, Collection.Close and Store.Close; every handle is re-read after every step (faults trapped); after everything is closed and the process is quiescent (no moss goroutine runnable, no pending asynchronous unlink) /proc/self/fd and /proc/self/maps must not mention the (unique) store directory and the directory must hold exactly one data file. distinct_nontrivial = distinct (handle kind | events outlived | config class) triples re-read plus release checks by child/no-child. A quarter of the programs use a merge operator that refuses to merge for some merger cycles (error paths must release what they hold); the store-first close order is exercised with the persister parked at any store.* point.",
 		oracles: eng.Oracles{Frozen: true, Dir: true},
 		gen: func(r *eng.Rng, idx int, th bool) *eng.Program {
 			cfg := eng.GenConfig(r, "store", false)
@@ -400,7 +400,7 @@ func init() {
 	// ------------------------------------------------------------ C20
 	registerSteered(steeredProfile{
 		prop: "C20", quick: 960, thorough: 14400,
-		rule: "steered programs incl. child-only and delete-only batches with mossStore and a custom lower level, CachePersisted on/off; Collection.Stats() sampled after every step; whenever CurDirtyOps=CurDirtyBytes=CurDirtySegments=0 with n>0 batches executed and none in flight, the lower level's own content (Store.Snapshot() / the application map) must equal the full reference content; conversely after 3 directed merger+persister iterations the gauges must be zero. distinct_nontrivial = distinct (config class|shape|park) triples sampled with zero gauges and n>0.",
+		rule: "steered programs incl. child-only and delete-only batches with mossStore and a custom lower level, CachePersisted on/off; Collection.Stats() sampled after every step; whenever CurDirtyOps=CurDirtyBytes=CurDirtySegments=0 with n>0 batches executed and none in flight, the lower level's own content (Store.Snapshot() / the application map) must equal the full reference content; conversely after 3 directed merger+persister iterations the gauges must be zero. distinct_nontrivial = distinct (config class|shape|park) triples sampled with zero gauges and n>0. A zero-gauge violation is classified by what the lower level lacks: pending data vs. pending structure-only changes (creation of an empty child, deletion of a child).",
 		oracles: eng.Oracles{Gauges: true},
 		gen: func(r *eng.Rng, idx int, th bool) *eng.Program {
 			b := pickBacking(r, "store", "store", "custom")
